@@ -11,6 +11,8 @@ writes, in particular between `UpdateCommitment` and the return of the revocatio
 import LndModel.C02.Lemmas
 import LndModel.C02.Total
 import LndModel.C02.RestoreErr
+import LndModel.C02.FwdPkgInv
+import LndModel.C02.Bisim
 set_option linter.unusedSimpArgs false
 set_option linter.unusedVariables false
 
@@ -209,6 +211,29 @@ theorem restore_commitments (n0 : Node) (h0 : Fresh n0) (evs : List Ev) (s' : St
     · show s.disk.lc.cm.height = _
       rw [hD.lc]
 
+/-- **fwd_pkgs_follow_remote_chain** (FULL; was the monitor-only clause `fwd-pkgs`).  At every
+    point of every run — API calls with any arguments, crashes / restarts, chan-sync, arbitrary
+    received revocations — the database holds exactly one forwarding package per revoked remote
+    commitment height, in order `1 … RemoteCommitment.CommitHeight` (written by the same transaction
+    that advances the remote chain tail), and no later state-machine call, crash or restart changes
+    or drops a package: the package list only grows at its end.  (What the LINK does to the
+    packages — forwarding decision, acknowledgements, removal — is the subject of
+    `LndModel.C02.FwdProps`.) -/
+theorem fwd_pkgs_follow_remote_chain (n0 : Node) (h0 : Fresh n0) (evs evs' : List Ev) :
+    let s := (St.init n0).run evs
+    s.disk.fwd.map FwdPkg.height = (List.range s.disk.rc.cm.height).map (· + 1) ∧
+    ∃ l, (s.run evs').disk.fwd = s.disk.fwd ++ l := by
+  intro s
+  have hD0 : DiskInv (St.init n0) := diskInv_init n0 h0.pendR
+  have hF0 : FwdInv (St.init n0) := by
+    refine ⟨?_, ?_⟩
+    · intro c hc; simp [St.init, h0.pendR] at hc
+    · show ([] : List FwdPkg).map FwdPkg.height = (List.range n0.chainR.tail.height).map (· + 1)
+      rw [h0.heightR]; rfl
+  have hD : DiskInv s := diskInv_run hD0 evs
+  obtain ⟨hF, _⟩ := fwdInv_run hD0 hF0 evs
+  exact ⟨hF.heights, (fwdInv_run hD hF evs').2⟩
+
 /-! ## the relation `≈` between the signed projection and the restored state -/
 
 /-- `hEquiv t` is an equivalence relation on commit heights. -/
@@ -263,6 +288,39 @@ theorem hEquiv_indistinguishable (t a b : Nat) (h : hEquiv t a b = true) :
     · rcases h3 with h3 | h3
       · left; omega
       · right; exact h3
+
+/-- **restore_bisimulation_logs_partial** (the update-log half of `restore_bisimulation` for the four
+    core calls).  For two logs related by `≈` (`logEquiv`: the same updates with `hEquiv`-related
+    commit heights, e.g. the signed projection of the pre-crash log and the restored log):
+    * SignNextCommitment / ReceiveNewCommitment: setting the commit heights of all covered updates
+      that are not yet on that chain to ANY new height (`commitLog`, the log mutation of
+      `fetchCommitmentView`) gives `≈`-related logs again;
+    * RevokeCurrentCommitment / ReceiveRevocation: the relation survives every advance of either
+      chain tail;
+    * every entry of the first log has a partner in the second that is indistinguishable in every
+      test the state machine makes on an entry: "not yet on chain c", `compactLogs`' removal test
+      for all later tails, and the forwarding-package membership tests of `ReceiveRevocation` for
+      every later remote height.
+    NOT proved (what is missing for the full `restore_bisimulation`): that `computeView` (balances,
+    fee, HTLC list of the new commitment) returns equal results on `≈`-related logs, that
+    `compactLogs` as a whole keeps them related, and the congruence of the eight update calls
+    (they go through `computeView` for their balance checks).  Monitor-only: the continuation of
+    every real restart under all C01 clauses. -/
+theorem restore_bisimulation_logs_partial (lt rt : Nat) (a b : List Entry) (h : logEquiv lt rt a b = true) :
+    (∀ c k idx, logEquiv lt rt (commitLog c k idx a) (commitLog c k idx b) = true) ∧
+    (∀ lt' rt', lt ≤ lt' → rt ≤ rt' → logEquiv lt' rt' a b = true) ∧
+    (∀ x ∈ a, ∃ p ∈ b, entryKey p = entryKey x ∧
+      (∀ c, x.addH c = 0 ↔ p.addH c = 0) ∧ (∀ c, x.rmvH c = 0 ↔ p.rmvH c = 0) ∧
+      (∀ lt' rt', lt ≤ lt' → rt ≤ rt' → removable lt' rt' x = removable lt' rt' p) ∧
+      (∀ lt' rt', lt ≤ lt' → rt < rt' → fwdAddTest lt' rt' x = fwdAddTest lt' rt' p) ∧
+      (∀ lt' rt', lt ≤ lt' → rt < rt' → fwdResTest lt' rt' x = fwdResTest lt' rt' p)) := by
+  have hL := (logEquiv_iff lt rt a b).mp h
+  refine ⟨?_, ?_, ?_⟩
+  · intro c k idx; exact (logEquiv_iff _ _ _ _).mpr (hL.commitLog c k idx)
+  · intro lt' rt' h1 h2; exact (logEquiv_iff _ _ _ _).mpr (hL.mono h1 h2)
+  · intro x hx
+    obtain ⟨p, hp, hk, he⟩ := hL.fwd x hx
+    exact ⟨p, hp, hk, he.tests⟩
 
 /-- **restore_is_signed_projection_partial**.  At every crash point of every run the restarted
     node agrees with the signed projection of the pre-crash node (`signedProj`) on the
@@ -372,6 +430,13 @@ example : ChainTrace [⟨0, 2, .revoke⟩, ⟨1, 3, .lost⟩, ⟨1, 3, .sync⟩]
 example : invCheck demoNode = true := by decide
 
 example : DiskWF (St.init demoNode).disk := diskWF_spec _ (by decide)
+
+/-- two related, different logs (hypothesis of `restore_bisimulation_logs_partial`): the add was put
+    on the local chain at height 2 before the crash and is restored with height 3 (tail 3). -/
+example : logEquiv 3 2
+    [{ ty := .add, amt := 5000, logIndex := 0, htlcIndex := 0, expiry := 144, hash := 1, addL := 2, addR := 1 }]
+    [{ ty := .add, amt := 5000, logIndex := 0, htlcIndex := 0, expiry := 144, hash := 1, addL := 3, addR := 1 }] = true := by
+  decide
 
 /-- the two failure kinds excluded by `restore_failure_kinds` are real on unreachable disks: an
     unsigned-acked fee update at the remote log index of the local commitment / an add among the
